@@ -58,17 +58,17 @@ Theorem C17_int_from_string_spec_partial : forall k s,
 Proof. exact int_from_string_spec_partial. Qed.
 Print Assumptions C17_int_from_string_spec_partial.
 
-(* the range check: REFUTED for UInt (UInt.fromString("-5") is a UInt holding -5) ... *)
-Theorem C17_uint_range_refuted : exists s v, int_from_string KUInt s = Some v /\ ~ in_range KUInt v.
-Proof. exact uint_from_string_out_of_range. Qed.
-Print Assumptions C17_uint_range_refuted.
-
-(* ... and holds for every other integer kind *)
-Theorem C17_int_from_string_in_range_partial : forall k s v,
-  (match k with KSigned n | KUnsigned n | KWord n => 0 < n | KInt => True | KUInt => False end) ->
+(* the range check: every accepted string denotes a value of the type, for every integer kind
+   (UInt included: since the fix commit 3d918c1 UInt.fromString("-5") is nil) *)
+Theorem C17_int_from_string_in_range : forall k s v,
+  (match k with KSigned n | KUnsigned n | KWord n => 0 < n | _ => True end) ->
   int_from_string k s = Some v -> in_range k v.
 Proof. exact int_from_string_in_range. Qed.
-Print Assumptions C17_int_from_string_in_range_partial.
+Print Assumptions C17_int_from_string_in_range.
+
+Theorem C17_uint_from_string_negative : int_from_string KUInt witness_minus5 = None.
+Proof. exact uint_from_string_negative. Qed.
+Print Assumptions C17_uint_from_string_negative.
 
 (* fixed-point: the grammar is shared by construction (parse_fixed_point); the type-specific part must be
    "at most [scale] fractional digits and the exact value in range".  REFUTED: CheckRange compares the
